@@ -1430,3 +1430,70 @@ Proof.
     split; [exact A|]. rewrite B. lra.
   - inversion H; subst. split; [intros; split; reflexivity|reflexivity].
 Qed.
+
+(* ------------------------------------------------------------------ VLE on a persistent object: the index cache is coherent *)
+Lemma filter_filter_comm {A} (f g : A -> bool) l : filter f (filter g l) = filter (fun x => g x && f x) l.
+Proof.
+  induction l as [|x l IH]; simpl; auto. destruct (g x); simpl; [destruct (f x); simpl; congruence|exact IH].
+Qed.
+
+Lemma vle_idx_as_filter cf mol :
+  vle_idx cf mol = filter (fun c => kind_eqb (kind_at cf c) KVle) (nz_idx mol).
+Proof.
+  unfold vle_idx, nz_idx. rewrite filter_filter_comm. apply filter_ext. intros c. apply andb_comm.
+Qed.
+
+Lemma setup_index_coherent cf o mol : vobj_ok cf o ->
+  fst (setup_index cf o mol) = vle_idx cf mol /\ vobj_ok cf (snd (setup_index cf o mol)).
+Proof.
+  intros OK. unfold setup_index. rewrite vle_idx_as_filter.
+  destruct (vo_nz o) as [nz|] eqn:E; cbn [opt_eqb].
+  - destruct (list_eqb Nat.eqb nz (nz_idx mol)) eqn:L.
+    + cbn [fst snd]. unfold vobj_ok in OK. rewrite E in OK. split; [|unfold vobj_ok; rewrite E; exact OK].
+      rewrite OK. f_equal. clear - L. revert L. generalize (nz_idx mol).
+      induction nz as [|x a IH]; intros [|y b] H; simpl in H; try discriminate; auto.
+      apply andb_prop in H. destruct H as (A & B). apply Nat.eqb_eq in A. f_equal; auto.
+    + cbn [fst snd]. split; [reflexivity|]. unfold vobj_ok. cbn [vo_nz vo_idx]. reflexivity.
+  - cbn [fst snd]. split; [reflexivity|]. unfold vobj_ok. cbn [vo_nz vo_idx]. reflexivity.
+Qed.
+
+(* for every history of setups: the index _setup uses is the one a fresh object would compute *)
+Fixpoint setup_history (cf : cfg) (o : vobj) (mols : list vec) : vobj :=
+  match mols with [] => o | m :: t => setup_history cf (snd (setup_index cf o m)) t end.
+Lemma setup_history_ok cf mols : forall o, vobj_ok cf o -> vobj_ok cf (setup_history cf o mols).
+Proof.
+  induction mols as [|m t IH]; intros o OK; cbn [setup_history]; auto.
+  apply IH. apply setup_index_coherent. exact OK.
+Qed.
+Lemma vle_index_history_independent cf mols mol :
+  fst (setup_index cf (setup_history cf vobj0 mols) mol) = vle_idx cf mol.
+Proof. apply setup_index_coherent. apply setup_history_ok. exact I. Qed.
+
+(* ------------------------------------------------------------------ phase_fraction lies in [0, 1] *)
+Lemma as_valid_fraction_01 x : 0 <= as_valid_fraction x <= 1.
+Proof.
+  unfold as_valid_fraction. destruct (qltb x 0) eqn:A; [lra|]. destruct (qltb 1 x) eqn:B; [lra|].
+  apply qltb_false in A. apply qltb_false in B. lra.
+Qed.
+Lemma phase_fraction_range rr zs Ks phi : phase_fraction_m rr zs Ks = Ok phi -> 0 <= phi <= 1.
+Proof.
+  unfold phase_fraction_m. destruct (Nat.ltb 2 (length zs)); [intros H; inversion H; apply as_valid_fraction_01|].
+  destruct (qleb (vmax Ks) c_1p); [intros H; inversion H; lra|].
+  destruct (qleb c_1m (vmin Ks)); [intros H; inversion H; lra|].
+  destruct zs as [|z1 [|z2 [|? ?]]]; try discriminate.
+  destruct Ks as [|K1 [|K2 [|? ?]]]; try discriminate.
+  destruct (rr2_closed z1 z2 K1 K2); cbn [bind]; [|discriminate].
+  intros H; inversion H. apply as_valid_fraction_01.
+Qed.
+
+(* the cached branch of LLE.__call__ with phase_fraction as it is: non-negative flows need only K >= 0 *)
+Lemma lle_cached_nonneg_lemma islle rr K molL top mws s s' phi :
+  length (l_l s) = length (l_L s) -> (forall k, 0 <= nthq (l_l s) k /\ 0 <= nthq (l_L s) k) ->
+  (forall p, 0 <= nthq K p) ->
+  lle_cached_phi islle rr K s = Ok phi ->
+  lle_call islle (mklo true K phi molL top mws) s = Ok s' ->
+  forall k, 0 <= nthq (l_l s') k /\ 0 <= nthq (l_L s') k.
+Proof.
+  intros W N HK HP H. unfold lle_cached_phi in HP. apply phase_fraction_range in HP.
+  eapply lle_nonneg_lemma; eauto. unfold lle_hyp. cbn [lo_cache lo_phi lo_K]. split; [lra|exact HK].
+Qed.
